@@ -300,7 +300,11 @@ def cmpTree : Expr CFloat → Expr CFloat → Nat
   | .address a, .address b => if a == b then 2 else 0
   | .call f a, .call g b => if f == g then cmpTree a b else 0
   | .bin a o b, .bin c p d => if o == p then min (cmpTree a c) (cmpTree b d) else 0
-  | .number x, .number y => if CFloat.bitEq x y then 2 else if CFloat.close CFloat.tolLibm x y then 1 else 0
+  | .number x, .number y =>
+    if CFloat.bitEq x y then 2 else if CFloat.close CFloat.tolLibm x y then 1
+    -- both contain a NaN: which component carries it can depend on the NaN's sign bit (`sqrt` of `NaN ± 0i` tests
+    -- `is_sign_positive`), which Lean's `Float.toBits` canonicalises away
+    else if (x.1.isNaN || x.2.isNaN) && (y.1.isNaN || y.2.isNaN) then 1 else 0
   | .pi, .pi => 2
   | .pre o a, .pre p b => if o == p then cmpTree a b else 0
   | .var x, .var y => if x == y then 2 else 0
